@@ -5,3 +5,4 @@ import BLDFM.Solver
 import BLDFM.Geo
 import BLDFM.Pbl
 import BLDFM.Met
+import BLDFM.SourceArea
